@@ -474,8 +474,8 @@ type powBuilt struct {
 	proof   *protocol.ProofOfWork
 	stamp   string
 	pub     ed25519.PublicKey // key whose subject is expected (the presented one)
-	t0      time.Time // build instant: the expiry in the stamp is relative to it
-	tv0     time.Time // just before the verifier ran (zero: use t0)
+	t0      time.Time         // build instant: the expiry in the stamp is relative to it
+	tv0     time.Time         // just before the verifier ran (zero: use t0)
 	lz      int
 	skipped string
 }
@@ -502,6 +502,9 @@ func buildPowCase(c powCase) powBuilt {
 		declared = d + []int{1, -1, 2, 8, -8, 1, -1, 3}[c.Variant]
 		if declared < 0 {
 			declared = d + 1
+		}
+		if declared > 19 && d > 0 {
+			declared = d - 1 // keep the harness-side search affordable (2^27 hashes otherwise)
 		}
 	case "subject":
 		switch c.Variant % 4 {
@@ -784,33 +787,83 @@ func judgePowCase(rec *ev.Recorder, o powOutcome) []failure {
 	return nil
 }
 
+// runPowBatch runs cases on the worker goroutines and judges them on the caller's.
+func runPowBatch(t fataler, rec *ev.Recorder, cs []powCase) {
+	t.Helper()
+	outs := make([]powOutcome, len(cs))
+	var wg sync.WaitGroup
+	sem := make(chan struct{}, workers())
+	for i := range cs {
+		wg.Add(1)
+		sem <- struct{}{}
+		go func(i int) {
+			defer wg.Done()
+			defer func() { <-sem }()
+			outs[i] = runPowCase(cs[i])
+		}(i)
+	}
+	wg.Wait()
+	var fs []failure
+	for _, o := range outs {
+		fs = append(fs, judgePowCase(rec, o)...)
+	}
+	failAll(t, rec, fs)
+}
+
+// partBMatrix: every tamper kind and every (expiry class x threshold offset) pair
+// is visited in every run, whatever the seed (cheap difficulties + a few at the
+// production parameters); keys, hosts and nonces come from the shard PRNG.
+func partBMatrix(t *testing.T, rec *ev.Recorder) {
+	r := rand.New(rand.NewSource(ev.ShardSeed() + 7))
+	mk := func(d, E int, exp string, lz int, tamper string, variant int) powCase {
+		var a, b [8]byte
+		r.Read(a[:])
+		r.Read(b[:])
+		c := powCase{KeySeed: hex.EncodeToString(a[:]), OtherSeed: hex.EncodeToString(b[:]), D: d, ExpiresS: E, ExpClass: exp, LZWant: lz,
+			Tamper: tamper, Variant: variant, Nonce: randText(r, nonceAlphabet, 0, 22)}
+		c.Subject.Kind = r.Intn(3)
+		if (tamper == "wrong-key-presented" || tamper == "resigned-by-other-key") && r.Intn(2) == 0 {
+			c.Subject.Kind = 1 // constant subject: the key is the only thing that differs
+		}
+		if c.Subject.Kind != 0 {
+			c.Subject.Host = randText(r, "abcdefghijklmnopqrstuvwxyz0123456789", 1, 10) + ".example.com"
+		}
+		return c
+	}
+	var cs []powCase
+	seen := map[string]bool{}
+	for _, tm := range tampers {
+		if tm == "none" || seen[tm] {
+			continue
+		}
+		seen[tm] = true
+		for _, d := range []int{8, 12} {
+			cs = append(cs, mk(d, []int{10, 30, 300, 3600}[r.Intn(4)], "ok-mid", 0, tm, r.Intn(8)))
+		}
+		cs = append(cs, mk(9, 10, "ok-mid", 0, tm, r.Intn(8)))
+		cs[len(cs)-1].Subject = subjectKind{Kind: 1, Host: "fixed.example.com"} // only the tampered condition can fail
+	}
+	for _, exp := range []string{"ok-soon", "ok-mid", "ok-late", "expired", "expired-long", "too-far", "far-future"} {
+		for _, lz := range []int{-1, 0, 1} {
+			for _, d := range []int{1, 8, 9, 12} {
+				cs = append(cs, mk(d, []int{10, 30, 300, 3600}[r.Intn(4)], exp, lz, "none", r.Intn(8)))
+			}
+		}
+		cs = append(cs, mk(18, 10, exp, 0, "none", r.Intn(8))) // production parameters
+	}
+	runPowBatch(t, rec, cs)
+}
+
 func partB(t *testing.T, rec *ev.Recorder) {
 	maxD := ev.Pick(18, 20)
 	batch := workers() * 2
 	gen := genPowCase(maxD)
-	ev.RapidCheck(t, 24, 800, func(t *rapid.T) {
+	ev.RapidCheck(t, 20, 800, func(t *rapid.T) {
 		cs := make([]powCase, batch)
 		for i := range cs {
 			cs[i] = gen.Draw(t, fmt.Sprintf("case%d", i))
 		}
-		outs := make([]powOutcome, len(cs))
-		var wg sync.WaitGroup
-		sem := make(chan struct{}, workers())
-		for i := range cs {
-			wg.Add(1)
-			sem <- struct{}{}
-			go func(i int) {
-				defer wg.Done()
-				defer func() { <-sem }()
-				outs[i] = runPowCase(cs[i])
-			}(i)
-		}
-		wg.Wait()
-		var fs []failure
-		for _, o := range outs {
-			fs = append(fs, judgePowCase(rec, o)...)
-		}
-		failAll(t, rec, fs)
+		runPowBatch(t, rec, cs)
 	})
 }
 
@@ -1029,6 +1082,7 @@ func TestC31(t *testing.T) {
 		ts = time.Now()
 		partC(t, rec)
 		rec.Note("part_c_wall_s", time.Since(ts).Seconds())
+		partBMatrix(t, rec)
 		if solverProofs.Load() == 0 {
 			t.Fatalf("machinery: the solver produced no proof at all, the solver clause was not exercised")
 		}
